@@ -264,6 +264,11 @@ struct FnDir {
     /// function body at the time the contract was written: a pure renaming of locals in the changed
     /// code is followed by renaming them in the spliced contract text
     binders: Option<Vec<String>>,
+    /// `//@ exits-ok [clause] <condition>`: every exit of the function that returns a value (each
+    /// `return e` and the tail expression) is wrapped so that `e.is_ok() ==> condition` is an
+    /// obligation at that exit; the condition may mention locals and ghost variables (needed where
+    /// `self` is consumed and a postcondition cannot speak about the final state)
+    exits_ok: Vec<Clause>,
 }
 
 #[derive(Default, Debug, Clone)]
@@ -426,6 +431,11 @@ fn parse_unit(path: &str) -> (Vec<Piece>, Vec<(String, String)>) {
                             section.clear();
                         } else if let Some(a) = section.strip_prefix("safety ") {
                             fd.safety = Some(a.trim().trim_start_matches('[').trim_end_matches(']').to_string());
+                            section.clear();
+                        } else if let Some(a) = section.strip_prefix("exits-ok ") {
+                            let a = a.trim();
+                            let close = a.find(']').unwrap_or_else(|| bail!("line {}: exits-ok [clause] <condition>", sl));
+                            fd.exits_ok.push(Clause { id: a[1..close].to_string(), text: a[close + 1..].trim().to_string(), vrs_line: sl });
                             section.clear();
                         } else if let Some(a) = section.strip_prefix("binders") {
                             fd.binders = Some(a.split_whitespace().map(|x| x.to_string()).collect());
@@ -1275,6 +1285,7 @@ fn apply_renames(fd: &FnDir, map: &[(String, String)]) -> FnDir {
     let mut n = fd.clone();
     let rc = |v: &mut Vec<Clause>| for c in v.iter_mut() { c.text = rename_tokens(&c.text, map); };
     rc(&mut n.requires);
+    rc(&mut n.exits_ok);
     rc(&mut n.ensures);
     rc(&mut n.decreases);
     for (_, l) in n.loops.iter_mut() {
@@ -1695,6 +1706,37 @@ fn emit_fn(src: &Src, path: &str, fd: &FnDir, bm: &[(String, String)], unit: &st
     }
     let Rules { edits: body_edits, stmts, loops, unsupported, fmt_items, .. } = rules;
     edits.extend(body_edits);
+    // ---- exits-ok: wrap the value of every `return` (outside closures) and the tail expression
+    let mut exit_helpers = String::new();
+    if !imported && !fd.exits_ok.is_empty() {
+        struct Rets(Vec<(proc_macro2::Span, proc_macro2::Span)>);
+        impl<'ast> Visit<'ast> for Rets {
+            fn visit_expr_closure(&mut self, _c: &'ast syn::ExprClosure) {}
+            fn visit_item(&mut self, _i: &'ast syn::Item) {}
+            fn visit_expr_return(&mut self, r: &'ast syn::ExprReturn) {
+                if let Some(e) = &r.expr {
+                    self.0.push((e.span(), e.span()));
+                }
+                visit::visit_expr_return(self, r);
+            }
+        }
+        let mut rets = Rets(vec![]);
+        rets.visit_block(block);
+        let mut sites: Vec<(usize, usize)> = rets.0.iter().map(|(a, _)| src.range(*a)).collect();
+        if let Some(syn::Stmt::Expr(e, None)) = block.stmts.last() {
+            sites.push(src.range(e.span()));
+        }
+        for (ci, c) in fd.exits_ok.iter().enumerate() {
+            let hname = format!("exit_ok_{}_{}", out.next_id, ci);
+            let _ = writeln!(exit_helpers, "// exits-ok [{}]: `r.is_ok() ==> condition` at every exit of the function below\nfn {}<T_, E_>(r: Result<T_, E_>, Ghost(c): Ghost<bool>) -> (o: Result<T_, E_>)\n    requires\n/*@exitreq:{}:{}*/        r.is_ok() ==> c,\n    ensures o == r\n{{ r }}", c.id, hname, c.id, c.vrs_line);
+            for (a, b) in &sites {
+                // `({ let ghost c_ = <condition>; helper(<expr>, Ghost(c_)) })` -- the parentheses keep Verus from
+                // reading the block as a continuation of a preceding loop
+                edits.push(Edit { start: *a, end: *a, rule: "EXIT".into(), parts: vec![lit(&format!("({{ let ghost c_ = {}; {}(", c.text, hname))], origin: Some(format!("check:{}:{}:{}", c.id, unit, c.vrs_line)), prio: -20 - ci as i32 });
+                edits.push(Edit { start: *b, end: *b, rule: "EXIT".into(), parts: vec![lit(", Ghost(c_)) })")], origin: None, prio: 20 + ci as i32 });
+            }
+        }
+    }
     if imported {
         // the callee is verified in its own unit; here only its contract is visible
         edits.push(Edit { start: body_open.0, end: fn_end, rule: "IMPORT".into(), parts: vec![lit("{ unimplemented!() }")], origin: None, prio: 0 });
@@ -1861,6 +1903,21 @@ fn emit_fn(src: &Src, path: &str, fd: &FnDir, bm: &[(String, String)], unit: &st
             out.text.push_str(code);
         }
     }
+    if !exit_helpers.is_empty() {
+        for line in exit_helpers.lines() {
+            if let Some(rest) = line.strip_prefix("/*@exitreq:") {
+                let (tag, code) = rest.split_once("*/").unwrap();
+                let (cid, ln) = tag.rsplit_once(':').unwrap();
+                out.mark(format!("clause:{}:{}:{}", cid, unit, ln));
+                out.text.push_str(code);
+                out.text.push('\n');
+                out.mark(format!("gen:{}:{}", unit, fd.vrs_line));
+            } else {
+                out.text.push_str(line);
+                out.text.push('\n');
+            }
+        }
+    }
     let wrap = match &impl_hdr {
         Some(h) if h != "trait-default" => {
             let _ = writeln!(out.text, "{} {{", h);
@@ -1892,7 +1949,7 @@ fn emit_fn(src: &Src, path: &str, fd: &FnDir, bm: &[(String, String)], unit: &st
     if imported {
         return;
     }
-    for (kind, cl) in [("requires", &fd.requires), ("ensures", &fd.ensures), ("decreases", &fd.decreases)] {
+    for (kind, cl) in [("requires", &fd.requires), ("ensures", &fd.ensures), ("decreases", &fd.decreases), ("exit-ok", &fd.exits_ok)] {
         for c in cl.iter() {
             clauses_json.push(json!({"id": c.id, "kind": kind, "fn": format!("{}::{}", src.rel, path), "text": c.text, "vrs_line": c.vrs_line}));
         }
